@@ -28,6 +28,14 @@
 (* then (an implementation may apply early notifications at once or queue   *)
 (* them).                                                                   *)
 (*                                                                          *)
+(* Environment.  Applications listen to PortStatus (and FeaturesReceived)   *)
+(* on the nexus and/or on the connection and may halt the event, raise in   *)
+(* their handler or unsubscribe.  The views do not depend on that: the      *)
+(* `lis` argument of Status / Barrier / Features (none / listen /           *)
+(* halt_nexus / halt_con / raise_nexus / raise_con / remove_nexus /         *)
+(* remove_con = the listeners present during this one step) never appears   *)
+(* in an expectation.                                                       *)
+(*                                                                          *)
 (* tch is a ghost: per port number, whether the last notification since the *)
 (* features reply was none / an update / a delete.  No property depends on  *)
 (* it; it is part of the VIEW of the export so that the transition cover    *)
@@ -44,6 +52,7 @@ CONSTANTS NP,          \* port numbers are 1..NP (symbols; concretised by the ad
           ProbeHws,    \* addresses looked up after every step (superset of Hws)
           InitSets,    \* port sets a features reply may report: SUBSET [Ports -> Slot]
           MaxEarly,    \* notifications modelled inside one handshake
+          LisModes,    \* what other listeners of PortStatus / FeaturesReceived do, see below
           D            \* export depth
 
 Ports == 1..NP
@@ -129,40 +138,41 @@ EarlyStatus(r, p, rec) ==
   /\ Log("EarlyStatus", [r |-> r, p |-> p, rec |-> rec], NoView)
 
 \* barrier reply: handshake complete, the connection (and its views) become visible
-Barrier ==
+Barrier(lis) ==
   /\ phase = "hs" /\ phase' = "up"
   /\ early' = 0
   /\ UNCHANGED <<orig, cur, tch, notes>>
-  /\ Log("Barrier", [x |-> 0], Obs(cur, orig))
+  /\ Log("Barrier", [lis |-> lis], Obs(cur, orig))
 
 \* port status on an established connection
-Status(r, p, rec) ==
+Status(r, p, rec, lis) ==
   /\ phase = "up"
   /\ Notify(r, p, rec)
   /\ UNCHANGED <<phase, early>>
-  /\ Log("Status", [r |-> r, p |-> p, rec |-> rec], Obs(Apply(cur, r, p, rec), orig))
+  /\ Log("Status", [r |-> r, p |-> p, rec |-> rec, lis |-> lis], Obs(Apply(cur, r, p, rec), orig))
 
 \* a further features reply on an established connection (answer to an
 \* application's features request): the picture starts over from it
-Features(S) ==
+Features(S, lis) ==
   /\ phase = "up"
   /\ Reset(S) /\ UNCHANGED <<phase, early>>
-  /\ Log("Features", [ports |-> S], Obs(S, S))
+  /\ Log("Features", [ports |-> S, lis |-> lis], Obs(S, S))
 
 \* named per kind so that TLC's coverage (vacuity guard) tells them apart
 EarlySet(r, p, rec) == EarlyStatus(r, p, rec) /\ TRUE
 EarlyDelete(p) == EarlyStatus("del", p, DelDesc(p)) /\ TRUE
-StatusSet(r, p, rec) == Status(r, p, rec) /\ TRUE
-StatusDelete(p) == Status("del", p, DelDesc(p)) /\ TRUE
+StatusSet(r, p, rec, lis) == Status(r, p, rec, lis) /\ TRUE
+StatusDelete(p, lis) == Status("del", p, DelDesc(p), lis) /\ TRUE
 
 FeaturesHSAny == \E S \in InitSets : FeaturesHS(S)
 EarlyUpd == \E r \in {"add", "mod"}, p \in Ports, rec \in Recs : EarlySet(r, p, rec)
 EarlyDel == \E p \in Ports : EarlyDelete(p)
-StatusUpd == \E r \in {"add", "mod"}, p \in Ports, rec \in Recs : StatusSet(r, p, rec)
-StatusDel == \E p \in Ports : StatusDelete(p)
-FeaturesAny == \E S \in InitSets : Features(S)
+StatusUpd == \E r \in {"add", "mod"}, p \in Ports, rec \in Recs, lis \in LisModes : StatusSet(r, p, rec, lis)
+StatusDel == \E p \in Ports, lis \in LisModes : StatusDelete(p, lis)
+FeaturesAny == \E S \in InitSets, lis \in LisModes : Features(S, lis)
+BarrierAny == \E lis \in LisModes : Barrier(lis)
 
-Next == FeaturesHSAny \/ EarlyUpd \/ EarlyDel \/ Barrier \/ StatusUpd \/ StatusDel \/ FeaturesAny
+Next == FeaturesHSAny \/ EarlyUpd \/ EarlyDel \/ BarrierAny \/ StatusUpd \/ StatusDel \/ FeaturesAny
 
 Spec == Init /\ [][Next]_vars
 
